@@ -74,6 +74,9 @@ pub enum Op {
     /// `Certificate` by self-signing with the issuer key, and the leaf is issued from that
     /// (needs x509-parser)
     IssueViaImport { issuer: usize, subject: usize, recipe: CertRecipe },
+    /// the convenience entry point: `generate_simple_self_signed(names)` — rcgen generates the
+    /// key itself (crypto builds only)
+    Simple { names: Vec<String> },
 }
 
 impl Op {
@@ -85,6 +88,7 @@ impl Op {
             Op::IssueFromCsr { .. } => "issue-from-csr",
             Op::Crl { .. } => "crl",
             Op::IssueViaImport { .. } => "issue-via-import",
+            Op::Simple { .. } => "simple-self-signed",
         }
     }
 }
@@ -145,6 +149,44 @@ pub struct Artefact {
     pub calls: Vec<SignCall>,
     /// for certificates: subject key slot
     pub subject: Option<usize>,
+    /// the same artefact as the API's other accessors hand it out (PEM decoded, `From`
+    /// conversion into the pki-types DER wrapper): must be the bytes of `der`
+    pub alt: Vec<(&'static str, Vec<u8>)>,
+    /// set when the artefact was signed by a key rcgen generated itself (no key slot):
+    /// (algorithm, SubjectPublicKeyInfo as the returned KeyPair reports it)
+    pub own_key: Option<(Alg, Vec<u8>)>,
+}
+
+fn pem_body(_label: &str, text: &str) -> Vec<u8> {
+    simcore::pem_decode(text).map(|(_, d)| d).unwrap_or_default()
+}
+
+pub fn cert_forms(cert: &rcgen::Certificate) -> Vec<(&'static str, Vec<u8>)> {
+    #[allow(unused_mut)]
+    let mut v: Vec<(&'static str, Vec<u8>)> = vec![("CertificateDer::from(cert)", pki_types::CertificateDer::from(cert.clone()).to_vec())];
+    #[cfg(feature = "pem")]
+    v.push(("pem()", pem_body("CERTIFICATE", &cert.pem())));
+    v
+}
+
+pub fn csr_forms(csr: &rcgen::CertificateSigningRequest) -> Vec<(&'static str, Vec<u8>)> {
+    #[allow(unused_mut)]
+    let mut v: Vec<(&'static str, Vec<u8>)> = Vec::new();
+    #[cfg(feature = "pem")]
+    if let Ok(p) = csr.pem() {
+        v.push(("pem()", pem_body("CERTIFICATE REQUEST", &p)));
+    }
+    v
+}
+
+pub fn crl_forms(crl: &rcgen::CertificateRevocationList) -> Vec<(&'static str, Vec<u8>)> {
+    #[allow(unused_mut)]
+    let mut v: Vec<(&'static str, Vec<u8>)> = Vec::new();
+    #[cfg(feature = "pem")]
+    if let Ok(p) = crl.pem() {
+        v.push(("pem()", pem_body("X509 CRL", &p)));
+    }
+    v
 }
 
 pub struct OpResult {
@@ -238,6 +280,8 @@ impl World {
                             requester: None,
                             calls: self.bus.calls_since(call0),
                             subject: Some(*key),
+                            alt: cert_forms(&cert),
+                            own_key: None,
                         });
                         res.ret = Ret::Ok(der);
                         if *store {
@@ -284,6 +328,8 @@ impl World {
                             requester: None,
                             calls: self.bus.calls_since(call0),
                             subject: Some(*subject),
+                            alt: cert_forms(&cert),
+                            own_key: None,
                         });
                         res.ret = Ret::Ok(der);
                         if *store {
@@ -323,6 +369,8 @@ impl World {
                             requester: Some(*key),
                             calls: self.bus.calls_since(call0),
                             subject: None,
+                            alt: csr_forms(&csr),
+                            own_key: None,
                         });
                         res.ret = Ret::Ok(der);
                     }
@@ -364,6 +412,8 @@ impl World {
                     requester: Some(*key),
                     calls: self.bus.calls_since(call0),
                     subject: None,
+                    alt: csr_forms(&csr),
+                    own_key: None,
                 });
                 let r = guarded(|| {
                     let parsed = rcgen::CertificateSigningRequestParams::from_der(csr.der())?;
@@ -379,6 +429,8 @@ impl World {
                             requester: None,
                             calls: self.bus.calls_since(call1),
                             subject: Some(*key),
+                            alt: cert_forms(&cert),
+                            own_key: None,
                         });
                         res.ret = Ret::Ok(der);
                     }
@@ -386,6 +438,31 @@ impl World {
                     Err(p) => res.ret = Ret::Panic(p),
                 }
             }
+            #[cfg(not(feature = "crypto"))]
+            Op::Simple { .. } => {
+                res.ret = Ret::Skipped("no crypto back end");
+                return res;
+            }
+            #[cfg(feature = "crypto")]
+            Op::Simple { names } => match guarded(|| rcgen::generate_simple_self_signed(names.clone())) {
+                Ok(Ok(ck)) => {
+                    let der = ck.cert.der().to_vec();
+                    let spki = ck.key_pair.public_key_der();
+                    res.artefacts.push(Artefact {
+                        kind: "cert",
+                        der: der.clone(),
+                        signer: 0,
+                        requester: None,
+                        calls: vec![],
+                        subject: None,
+                        alt: cert_forms(&ck.cert),
+                        own_key: Some((Alg::P256, spki)),
+                    });
+                    res.ret = Ret::Ok(der);
+                }
+                Ok(Err(e)) => res.ret = Ret::Err(err_name(&e)),
+                Err(p) => res.ret = Ret::Panic(p),
+            },
             #[cfg(not(feature = "x509-parser"))]
             Op::IssueViaImport { .. } => {
                 res.ret = Ret::Skipped("no x509-parser");
@@ -426,6 +503,8 @@ impl World {
                     requester: None,
                     calls: self.bus.calls_since(call0),
                     subject: Some(iss.key),
+                    alt: cert_forms(&imported),
+                    own_key: None,
                 });
                 let params = recipe.build();
                 match guarded(|| params.signed_by(&sk.kp, &imported, &ik.kp)) {
@@ -438,6 +517,8 @@ impl World {
                             requester: None,
                             calls: self.bus.calls_since(call1),
                             subject: Some(*subject),
+                            alt: cert_forms(&cert),
+                            own_key: None,
                         });
                         res.ret = Ret::Ok(der);
                     }
@@ -467,6 +548,8 @@ impl World {
                             requester: None,
                             calls: self.bus.calls_since(call0),
                             subject: None,
+                            alt: crl_forms(&crl),
+                            own_key: None,
                         });
                         res.ret = Ret::Ok(der);
                     }
